@@ -145,6 +145,10 @@ def collect_sites(spec, data, trail, parent, key, e, layouts, out):  # noqa: C90
         out.append(Site(trail, trail, "wrong_type", replace(BAD()), ("leaf", trail)))
         return
     out.append(Site(trail, trail, "wrong_container", replace(5), ("leaf", trail)))
+    if tag in ("list", "set", "frozenset", "vtuple", "deque", "abc", "tuple"):
+        # str and Mapping are the documented *excluded* types of strict iterable loaders (ExcludedTypeLoadError)
+        out.append(Site(trail, trail, "wrong_container_str", replace("ab"), ("leaf", trail)))
+        out.append(Site(trail, trail, "wrong_container_map", replace({"k": 1}), ("leaf", trail)))
     if tag in ("list", "set", "frozenset", "vtuple", "deque", "abc"):
         inner = s[2] if tag == "abc" else s[1]
         for i, x in enumerate(data):
